@@ -149,8 +149,22 @@ func c13Case(r *core.Run, idx int, rng *rand.Rand) {
 	if s.Binding == "redirect" && rng.Intn(2) == 0 {
 		s.Encoding = spsim.EncDeflate
 	}
+	brokenStream := false
+	if s.Binding == "redirect" && decodable && rng.Intn(10) == 0 {
+		// the DEFLATE stream is damaged behind the blocks that carry the complete document: flushed but never finished,
+		// or followed by a block of a reserved type - such a message does not decode
+		raw := spsim.DeflateUnfinished([]byte(x))
+		if rng.Intn(2) == 0 {
+			raw = append(raw, 0x07, 0xff, 0xff) // BTYPE=11 (reserved)
+		}
+		s.rawSAMLRequest = spsim.B64(raw)
+		decodable, brokenStream = false, true
+	}
 	call, _ := s.do(e)
 	class := fmt.Sprintf("dec=%v|reg=%v|issued=%s|expiry=%s|n_slo=%d|%s|layout=%q", decodable, registered, issued, expiry, len(d.SLO), s.Binding, layout)
+	if brokenStream {
+		class += "|deflate_stream_damaged_behind_the_document"
+	}
 	desc := map[string]any{"class": class, "xml": clipS(x, 1500), "relay": relay, "slo": d.SLO, "host": host}
 	viol := func(clause, reason string) {
 		r.Violate(core.Violation{Clause: clause, Class: class, Reason: reason, Workload: wl, Index: idx, Case: desc, Observed: call.Describe()})
